@@ -234,6 +234,31 @@ def rule_r1(ctx) -> List[R.Inst]:
                 if le and adv and w.same(sym.canon(adv[0].value)):
                     loop_ok = True
                 if not adv and isinstance(a1.slice.lower, ast.Name):
+                    # prefix-sum form: for fmt, size, count, start in zip(FORMATS, SIZES, COUNT, accumulate(SIZES, initial=0)):
+                    #                      unpack("<" + fmt * count, b[start:start + size])
+                    zl = next((l for l in walk_no_nested(rm.node) if isinstance(l, ast.For) and isinstance(l.iter, ast.Call) and call_name(l.iter) == "zip" and
+                               isinstance(l.target, ast.Tuple) and len(l.target.elts) == len(l.iter.args) and any(x is n for x in ast.walk(l))), None)
+                    if zl is not None:
+                        pos = {t.id: k for k, t in enumerate(zl.target.elts) if isinstance(t, ast.Name)}
+                        srcs = [_resolve_local(rm.node, a) for a in zl.iter.args]
+                        sv = a1.slice.lower.id
+                        if sv in pos:
+                            ssrc = srcs[pos[sv]]
+                            sizes_k = next((k for k, a in enumerate(srcs) if unparse(a).endswith("BYTE_SIZES")), None)
+                            starts_ok = isinstance(ssrc, ast.Call) and call_name(ssrc) == "accumulate" and len(ssrc.args) == 1 and \
+                                unparse(ssrc.args[0]).endswith("BYTE_SIZES") and {k.arg: unparse(k.value) for k in ssrc.keywords} == {"initial": "0"}
+                            size_var = zl.target.elts[sizes_k].id if sizes_k is not None and isinstance(zl.target.elts[sizes_k], ast.Name) else None
+                            width_ok = size_var is not None and w.same(sym.parse(size_var))
+                            if le and starts_ok and width_ok:
+                                insts.append(R.ok(rid, "unpack-loop", file, n.lineno,
+                                                  idiom="little-endian; field k starts at the sum of the sizes before it and is read over its own size"))
+                            else:
+                                why = ([] if le else ["not little-endian"]) + ([] if starts_ok else [f"'{sv}' is not the running sum of BYTE_SIZES from 0"]) + \
+                                    ([] if width_ok else [f"the slice is {unparse(a1.slice.upper)} - {unparse(a1.slice.lower)} wide, not the field's size"])
+                                insts.append(R.viol(rid, "unpack-loop", file, n.lineno,
+                                                    "the header cursor must advance by exactly the width of the slice it unpacked, little-endian: "
+                                                    + "; ".join(why), construct=unparse(n)[:160]))
+                            continue
                     # comprehension form: [unpack(.., b[i:i + W]) for i in range(START, END, W)] ; START = END
                     iv = a1.slice.lower.id
                     comp = next((c for c in ast.walk(rm.node) if isinstance(c, (ast.ListComp, ast.GeneratorExp)) and len(c.generators) == 1 and
